@@ -103,7 +103,10 @@ class Submodule(Module):
         if self.ancestor_obj is None:
             return
 
-        ancestor_interfaces = get_ancestor_interfaces(self.ancestor_obj.children)
+        # The prototypes may be declared in any ancestor, not only the parent
+        ancestor_interfaces = []
+        for ancestor in self.get_ancestors():
+            ancestor_interfaces += get_ancestor_interfaces(ancestor.children)
         # Match interface definitions to implementations
         for interface in ancestor_interfaces:
             for i, child in enumerate(self.children):
